@@ -780,6 +780,30 @@ static void hm_case(uint64_t idx, void *ctx)
     mc_nontrivial();
     mc_outcome(idx);
 }
+/* ------------------------------------------------------------------ find: every haystack and needle over two byte values, so that needles overlap themselves */
+#define FO_HMAX 8
+#define FO_NMAX 4
+static void fo_decode(uint64_t idx, unsigned char *h, int *hl) { int l = 0; uint64_t base = 0; while (idx >= base + (1ull << l)) { base += 1ull << l; l++; } uint64_t v = idx - base; for (int i = 0; i < l; i++) h[i] = (v >> i & 1) ? 0xb1 : 'a'; *hl = l; }
+static void fo_desc(uint64_t idx, void *ctx, char *b, size_t n) { unsigned char h[FO_HMAX + 1]; int hl; (void) ctx; fo_decode(idx, h, &hl); size_t k = (size_t) snprintf(b, n, "find / find_from_ptr in the %d-byte buffer \"", hl); for (int i = 0; i < hl; i++) k += (size_t) snprintf(b + k, n - k, "%c", h[i] == 'a' ? 'a' : 'B'); snprintf(b + k, n - k, "\" (B = byte 0xb1) of every needle of <= %d bytes over the same two byte values", FO_NMAX); }
+static void fo_case(uint64_t idx, void *ctx)
+{
+    unsigned char h[FO_HMAX + 1], nd[FO_NMAX + 1]; int hl, nl; (void) ctx; fo_decode(idx, h, &hl);
+    unsigned char *hh = mc_heapmem(h, (size_t) hl); T o = F(new_from_ptr)(hh, hl); free(hh); if (!o) return;
+    uint64_t oc = 0;
+    for (uint64_t j = 1; j < (2ull << FO_NMAX) - 1; j++) {
+        fo_decode(j, nd, &nl);
+        const unsigned char *p = hl >= nl ? memmem(h, (size_t) hl, nd, (size_t) nl) : NULL; long ex = p ? p - h : hl;
+        const char *sh = nl > hl ? "needle longer than buffer" : (p ? "needle present" : "needle absent"); mc_set_shape(sh);
+        unsigned char *hn = mc_heapmem(nd, (size_t) nl);
+        long g1 = (long) F(find_from_ptr)(o, hn, nl); T on = F(new_from_ptr)(hn, nl); long g2 = on ? (long) F(find)(o, on) : ex; if (on) F(del)(on); free(hn);
+        if (g1 != ex) { char t[8]; for (int i = 0; i < nl; i++) t[i] = nd[i] == 'a' ? 'a' : 'B'; t[nl] = 0; FAIL(CLS "_find_from_ptr", "model:return", sh, "find_from_ptr(\"%s\")=%ld expected %ld", t, g1, ex); }
+        if (g2 != ex) FAIL(CLS "_find", "model:return", sh, "find(needle %d bytes)=%ld expected %ld", nl, g2, ex);
+        oc = oc * 31 + (uint64_t) ex;
+    }
+    F(del)(o);
+    mc_nontrivial();
+    mc_outcome(oc);
+}
 int main(int argc, char **argv)
 {
 #ifdef VERIF_LEAKRUN
@@ -805,6 +829,7 @@ int main(int argc, char **argv)
     if (!mc_arg("only", NULL) || !strcmp(mc_arg("only", ""), "ctor"))
         mc_e2_level(CLS "_stream_ctor", g_k * 10 + g_dev, (uint64_t) NSRC * NLENS, sc_case, sc_desc, NULL);
     if (!mc_arg("only", NULL)) mc_e2_level(CLS "_extreme_index", 64, (uint64_t) NEXT * NEXT, ex_case, ex_desc, NULL);
+    if (!mc_arg("only", NULL)) mc_e2_level(CLS "_find_two_values", FO_HMAX, (2ull << FO_HMAX) - 1, fo_case, fo_desc, NULL);
     if (!mc_arg("only", NULL)) mc_e2_level(CLS "_large_splice", 3 << 20, 2, ls_case, ls_desc, NULL);
     if (!mc_arg("only", NULL)) mc_e2_level(CLS "_long_buffer", 65537, (uint64_t) NLT * NLO, lt_case, lt_desc, NULL);
     if (!mc_arg("only", NULL)) { mc_e2_level(CLS "_stream_history", 1, 30, sh_case, sh_desc, NULL); mc_e2_level(CLS "_fd_hard_error", 1, NHE, he_case, he_desc, NULL); mc_e2_level(CLS "_procfs_file", 1, 1, pf_case, pf_desc, NULL); }
